@@ -98,11 +98,8 @@ theorem scanSingle_escQ : ∀ (s rest : List Char), endsWithBackslash s = false 
 
 /-! ### JSON -/
 
-/-- integers that float64 holds exactly -/
-def intSafe (v : Int) : Bool := v.natAbs < 9007199254740992
-
 def atomJsonSafe : Atom → Bool
-  | .num (.int b v) => b != 0 && intSafe v
+  | .num (.int b _) => b != 0
   | _ => true
 
 mutual
@@ -137,21 +134,13 @@ def meaningOfAll : List Expr → List Expr
   | a :: rest => meaningOf a :: meaningOfAll rest
 end
 
-theorem roundF64_safe (v : Int) (h : intSafe v = true) : roundF64 v = v := by
-  simp only [intSafe, decide_eq_true_eq] at h
-  simp [roundF64, h]
-
 theorem jsonAtom_safe (a : Atom) (h : atomJsonSafe a = true) : ∃ a', jsonAtom a = .ok a' ∧ atomValue a' = atomValue a := by
   cases a with
   | num n =>
     cases n with
     | int b v =>
-      simp only [atomJsonSafe, Bool.and_eq_true, bne_iff_ne, ne_eq] at h
-      have hr := roundF64_safe v h.2
-      have hlt : ¬ (v ≥ 9223372036854775808) := by
-        have := h.2; simp only [intSafe, decide_eq_true_eq] at this; omega
-      refine ⟨.num (.int b v), ?_, rfl⟩
-      simp [jsonAtom, h.1, hr, hlt]
+      simp only [atomJsonSafe, bne_iff_ne, ne_eq] at h
+      exact ⟨.num (.int b v), by simp [jsonAtom, h], rfl⟩
     | flt c => exact ⟨_, rfl, rfl⟩
   | dur ns l => exact ⟨_, rfl, rfl⟩
   | bool b => exact ⟨_, rfl, rfl⟩
